@@ -69,7 +69,7 @@ def run_history(ctx, case, sparse=False):
     model = BarModel(meter)
     ctx.check(abs(bar.length - (float(model.L) if model.L is not None else 0.0)) <= 1e-12, "length",
               lambda: "meter %r length %r" % (meter, bar.length))
-    flags = {"capacity": False, "refusal": False, "rm_then_place": False, "steps": 0}
+    flags = {"capacity": False, "refusal": False, "rm_then_place": False, "plus_closes_bar": False, "steps": 0}
     last_rm = False
     for k, op in enumerate(case["ops"]):
         kind = op[0]
@@ -87,6 +87,9 @@ def run_history(ctx, case, sparse=False):
                 v = model.remainder_value()
                 if v is None:
                     continue
+                if len(op) > 3 and op[3] and RV.vlen(v) == Fr(1, meter[1] if meter[1] != 0 else 4):
+                    kind = "plus"  # exactly one beat is left: close the bar with '+'
+                    flags["plus_closes_bar"] = True
             number, length = RV.number(v), RV.vlen(v)
             content = None if kind == "rest" else content_model(mg.form_notes(form, notes))
             arg = None if kind == "rest" else mg.build_content(form, notes)
@@ -117,6 +120,24 @@ def run_history(ctx, case, sparse=False):
                     return flags
                 ctx.check(mg.bar_snapshot(bar) == before and bar.current_beat == cb, "refused-changed-bar", where)
             last_rm = False
+        elif kind == "approach":  # greedily place values until exactly op[1] beats are left (then '+' must still fit)
+            if model.L is None:
+                continue
+            target = model.L - Fr(op[1], meter[1])
+            for _ in range(6):
+                gap = target - model.total
+                if gap <= 0:
+                    break
+                cands = [v for v in RV.VOCAB if RV.vlen(v) <= gap]
+                if not cands:
+                    break
+                v = max(cands, key=RV.vlen)
+                r = ctx.ok("place_notes", bar.place_notes, "C-4", RV.number(v))
+                if failed(r) or not ctx.check(r is True, "accept/refused-fitting", lambda: "%s: refused %r although it fits" % (where, v)):
+                    return flags
+                model.place(RV.number(v), RV.vlen(v), [["C", 4]])
+            if model.total == target:
+                flags["plus_closes_bar"] = True
         elif kind == "empty":  # the same Bar object is emptied and used again
             ctx.ok("empty", bar.empty)
             model.entries, model.total = [], Fr(0)
@@ -164,7 +185,7 @@ def check_history(ctx, case):
     flags = run_history(ctx, case)
     if flags is None:
         return ctx.note_case(False, ["history:constructor-failed"])
-    labs = ["history:" + k for k in ("capacity", "refusal", "rm_then_place") if flags[k]]
+    labs = ["history:" + k for k in ("capacity", "refusal", "rm_then_place", "plus_closes_bar") if flags[k]]
     if case["meter"] == [0, 0]:
         labs.append("history:unbounded-meter")
     ctx.note_case(bool(labs) and flags["steps"] >= 2, labs or ["history:plain"])
@@ -290,7 +311,7 @@ def _ops_st():
     place = st.tuples(st.just("place"), form, _notes_st(), v | vsmall).map(list)
     rest = st.tuples(st.just("rest"), v | vsmall).map(list)
     plus = st.tuples(st.just("plus"), form, _notes_st()).map(list)
-    fill = st.tuples(st.just("fill"), form, _notes_st()).map(list)
+    fill = st.tuples(st.just("fill"), form, _notes_st(), st.booleans()).map(list)
     rm = st.just(["rm"])
     seti = st.tuples(st.just("set"), st.integers(0, 50), st.sampled_from([f for f in mg.FORMS if f != "listpair"]), _notes_st()).map(list)
     at = st.tuples(st.just("at"), st.integers(0, 50), _notes_st()).map(list)
@@ -311,8 +332,8 @@ def sub_mixed_fills(ctx, shard, n):
         "ops": st.lists(st.one_of(
             st.tuples(st.just("place"), st.just("str"), st.just([["C", 4]]), st.sampled_from(RV.VOCAB)).map(list),
             st.tuples(st.just("rest"), st.sampled_from(RV.VOCAB)).map(list),
-            st.just(["fill", "nc", [["C", 4], ["G", 4]]])), min_size=2, max_size=40).map(
-            lambda ops: ops + [["fill", "note", [["E", 4]]], ["place", "str", [["C", 4]], [128, 0, 1, 1]], ["rest", [4, 0, 1, 1]]]),
+            st.just(["fill", "nc", [["C", 4], ["G", 4]], True])), min_size=2, max_size=40).map(
+            lambda ops: ops + [["fill", "note", [["E", 4]], True], ["place", "str", [["C", 4]], [128, 0, 1, 1]], ["rest", [4, 0, 1, 1]]]),
     })
     ctx.given("history", check_history, strat, (250 if ctx.quick else 2500))
 
@@ -356,6 +377,19 @@ def sub_near_boundary(ctx, shard, n):
     ctx.enumerate("history", check_history, cases, size_key=lambda c: len(c["ops"]))
 
 
+def sub_beat_closers(ctx, shard, n):
+    """tuplet-heavy prefixes, then values are placed until exactly one or two beats are left, then '+' closes the bar"""
+    tup = [v for v in RV.VOCAB if v[2] != 1 and v[0] <= 64] + [v for v in RV.VOCAB if v[1] >= 2 and v[0] <= 32]
+    pre = st.lists(st.one_of(
+        st.tuples(st.just("place"), st.just("str"), st.just([["C", 4]]), st.sampled_from(tup) | st.sampled_from(RV.VOCAB)).map(list),
+        st.tuples(st.just("rest"), st.sampled_from(tup)).map(list), st.just(["rm"])), min_size=0, max_size=8)
+    strat = st.fixed_dictionaries({
+        "meter": st.sampled_from([[4, 4], [3, 4], [6, 8], [5, 4], [2, 2], [12, 8], [7, 8], [2, 4], [9, 8], [5, 8], [3, 8], [4, 2], [6, 4]]),
+        "ops": st.tuples(pre, st.integers(1, 2)).map(lambda t: t[0] + [["approach", t[1]], ["plus", "note", [["E", 4]]], ["plus", "str", [["G", 4]]],
+                                                                         ["plus", "note", [["A", 4]]]])})
+    ctx.given("history", check_history, strat, 400 if ctx.quick else 3000)
+
+
 def sub_meters(ctx, shard, n):
     units = list(range(-8, 70)) + [2 ** k for k in range(7, 40)] + [2 ** k + 1 for k in range(2, 40)] + [96, 1000, 4096] + \
             [0.5, 0.25, 1.5, 2.5, 3.0, 4.0, 8.0, 6.0, 2.0 ** 60, 2.0 ** 1023, "inf", "nan", "-inf", -4.0, 1e-3, 4.000000001]
@@ -375,5 +409,6 @@ SUBS = [
     Sub("random", sub_random, quick=4, thorough=16),
     Sub("mixed_fills", sub_mixed_fills, quick=2, thorough=8),
     Sub("near_boundary", sub_near_boundary),
+    Sub("beat_closers", sub_beat_closers, quick=3, thorough=8),
     Sub("meters", sub_meters),
 ]
